@@ -105,6 +105,15 @@ fn judge<T: Fl>(a: Interval<T>, b: Interval<T>, eps: T, rel: T, ulps: u32, case:
     chk("abs_diff_eq", a.abs_diff_eq(&b, eps), b.abs_diff_eq(&a, eps), w_abs, l);
     chk("relative_eq", a.relative_eq(&b, eps, rel), b.relative_eq(&a, eps, rel), w_rel, l);
     chk("ulps_eq", a.ulps_eq(&b, eps, ulps), b.ulps_eq(&a, eps, ulps), w_ulp, l);
+    // the same relations the way generic code and the approx macros reach them: trait-qualified (an inherent method of
+    // the same name would shadow the trait only in method-call syntax) and through abs_diff_eq! / relative_eq! / ulps_eq!
+    chk("AbsDiffEq::abs_diff_eq", approx::AbsDiffEq::abs_diff_eq(&a, &b, eps), approx::AbsDiffEq::abs_diff_eq(&b, &a, eps), w_abs, l);
+    chk("RelativeEq::relative_eq", approx::RelativeEq::relative_eq(&a, &b, eps, rel), approx::RelativeEq::relative_eq(&b, &a, eps, rel), w_rel, l);
+    chk("UlpsEq::ulps_eq", approx::UlpsEq::ulps_eq(&a, &b, eps, ulps), approx::UlpsEq::ulps_eq(&b, &a, eps, ulps), w_ulp, l);
+    chk("abs_diff_eq!", approx::abs_diff_eq!(a, b, epsilon = eps), approx::abs_diff_eq!(b, a, epsilon = eps), w_abs, l);
+    chk("relative_eq!", approx::relative_eq!(a, b, epsilon = eps, max_relative = rel), approx::relative_eq!(b, a, epsilon = eps, max_relative = rel), w_rel, l);
+    chk("ulps_eq!", approx::ulps_eq!(a, b, epsilon = eps, max_ulps = ulps), approx::ulps_eq!(b, a, epsilon = eps, max_ulps = ulps), w_ulp, l);
+    l.count("trait-qualified and macro forms judged");
     // the negated entry points (abs_diff_ne / relative_ne / ulps_ne and the assert_*_ne! macros built on
     // them) are the complements, in both argument orders
     for (m, ne, ne_rev, eq) in [
